@@ -18,7 +18,7 @@ PROPS = ("C04", "C08", "C17")
 CLAUSES = {
     "C04": ("c04_verdict", "c04_failfast", "c04_stop_reaches", "c04_testsrun", "c04_text", "c04_exit", "c04_suite", "c04_raised"),
     "C08": ("c08_once", "c08_degrade_text", "c08_noupgrade", "c08_bytest", "c08_raised"),
-    "C17": ("c17_scoped", "c17_observed", "c17_raised"),
+    "C17": ("c17_scoped", "c17_observed", "c17_observed_stable", "c17_raised"),
 }
 ACTIONS = ["StartTestRun", "StopTestRun", "Tags", "Time", "StartTest", "Outcome", "StopTest", "SkipAdd", "SkipStop",
            "Stop", "Done", "Progress", "SetFailfast"]
@@ -95,6 +95,7 @@ def replay(beh, flavour, clauses=None):
     hist = beh["hist"]
     out = []
     startless = False
+    ret = rt.Retained()
     stale = False  # a ThreadsafeForwardingResult still holds buffered run-level tags right after startTestRun
     nulled = False  # some object's tag context has been replaced by None (direct evidence, see signature())
     for step, h in enumerate(hist):
@@ -119,6 +120,13 @@ def replay(beh, flavour, clauses=None):
         if c["op"] == "startTestRun":
             stale = stale or any(nd.k == "TFR" and any(nd.obj._global_tags) for nd in nodes)
         mark = len(out)
+        # 0. nothing that was handed out for an earlier call has changed since (the ACTUAL objects: final-status test_tags,
+        #    StreamToDict records, on_test tags, current_tags values - not our receive-time copies)
+        for source, i, snap, now in ret.changed():
+            out.append(dict(clause="c17_observed_stable", step=step, node=i, expected=snap, observed=now, source=source))
+        for nd in nodes:
+            rt.retain_new(ret, nd, "log")
+            rt.retain_new(ret, nd, "attr")
         # 1. per-node observables
         for i, nd in enumerate(nodes):
             exp = h["obs"][i]
@@ -245,6 +253,8 @@ def signature(beh, flavour, d):
         u = under(st, i)
         at = "wrapped" if u != "-" and not st.nodes[i]["ch"] else IMPL.get(kind, kind)
         return "%s:%s:at=%s:under=%s:%s:%s->%s" % (cl, callclass, at, u, how, d["expected"], obs)
+    if cl == "c17_observed_stable":
+        return "c17_observed_stable:src=%s:at=%s:changed-by=%s" % (d.get("source"), TAGS_IMPL.get(kind, kind), c["op"])
     if cl == "c04_text":
         diff = sorted(k for k in d["expected"] if d["expected"][k] != obs.get(k))
         return "%s:at=%s:under=%s:%s" % (cl, IMPL.get(kind, kind), under(st, i), "+".join(diff))
